@@ -22,7 +22,7 @@ import threading
 import weakref
 
 from .. import common, flat, flatcheck, runner
-from ..flat import TRIGGER, DISPATCH, REMOVE, ADD
+from ..flat import TRIGGER, MAY, DISPATCH, REMOVE, ADD
 from ..runner import Exploration, Failure
 from .c04 import get_cls, SYNC_CLASSES
 
@@ -83,8 +83,40 @@ class CheckedRun(flat.FlatRun):
         return r
 
 
+def removed_model_touched(items):
+    """'A removed model is no longer touched by the machine': once remove_model(m) has returned (and until m is added
+    again) no callback runs on behalf of m — except as the continuation of an event of m that had already started
+    running callbacks before the removal, or under a trigger the USER issues on m afterwards (the helpers stay bound;
+    that is the user touching the model, not the machine). What remains: a dispatch that still reaches m, a queued
+    event of m that is processed although it was pending at the removal, another model's event."""
+    api, seen, removed, out = {}, {}, {}, []
+    for idx, it in enumerate(items):
+        if it[0] == 'api':
+            api[it[2]] = (it[1], it[3], idx)
+        elif it[0] == 'ret' and it[1] in api:
+            kind, mid, _i = api[it[1]]
+            if kind == REMOVE:
+                removed[mid] = (idx, set(seen.get(mid, ())))
+            elif kind == ADD:
+                removed.pop(mid, None)
+        elif it[0] == 'call':
+            mid, tag = it[3], it[4]
+            if mid in removed and tag not in removed[mid][1]:
+                kind, target, started = api.get(tag, (None, None, -1))
+                own = kind in (TRIGGER, MAY) and target == mid and started > removed[mid][0]
+                if not own:
+                    out.append(('removed-model-still-touched',
+                                {'model': mid, 'removed_at_item': removed[mid][0], 'item': idx,
+                                 'call': common.show_item(it),
+                                 'under': None if kind is None else ['trigger', 'may', 'dispatch', 'remove_model',
+                                                                     'add_model'][kind]}, 'C10.removed'))
+                    break
+            seen.setdefault(mid, set()).add(tag)
+    return out
+
+
 def oracle_membership(d, r):
-    out = []
+    out = removed_model_touched(r.items)
     for p in getattr(r, 'problems', []):
         out.append((p[0], {'model': p[1], 'missing': p[2]}, 'C10.helpers'))
     if not membership_cmds_in_callbacks(d) and any(c[0] == DISPATCH for c in d.history):
@@ -140,7 +172,7 @@ def cls_for(d):
 
 
 def oracle_classes(d, r):
-    return [(p[0], {'class_or_model': p[1], 'missing': p[2]}, 'C10.' + ('hang' if p[0] == 'machine-hangs' else 'helpers'))
+    return removed_model_touched(r.items) + [(p[0], {'class_or_model': p[1], 'missing': p[2]}, 'C10.' + ('hang' if p[0] == 'machine-hangs' else 'helpers'))
             for p in getattr(r, 'problems', [])]
 
 
@@ -327,11 +359,16 @@ def locked_context_case(clsname, rng):
     log = []
     a, b, c = PlainModel('a'), PlainModel('b'), PlainModel('c')
     mach = cls(model=None, states=['A', 'B'], transitions=[['go', 'A', 'B'], ['go', 'B', 'A']], initial='A', **kw)
-    mach.add_model(a, model_context=[Ctx('ca', log)])
-    mach.add_model(b, model_context=[Ctx('cb1', log), Ctx('cb2', log)])
+    ctxs = {'a': [Ctx('ca', log)], 'b': [Ctx('cb1', log), Ctx('cb2', log)]}
+    for cx in ctxs['a']:
+        cx.owner = a        # the contexts reference their models (a per-model lock object usually does), so an
+    for cx in ctxs['b']:    # entry left behind in the lock map keeps the model alive
+        cx.owner = b
+    mach.add_model(a, model_context=ctxs['a'])
+    mach.add_model(b, model_context=ctxs['b'])
+    del ctxs, cx
     mach.add_model(c)
     info = {'class': clsname}
-    hierarchical = 'Hierarchical' in clsname
 
     def ev(m):
         del log[:]
@@ -346,15 +383,41 @@ def locked_context_case(clsname, rng):
         foreign = [n for n in entered if n not in own]
         if foreign:
             out.append(('foreign-model-context-entered', dict(info, model=m.name, entered=entered), 'C10.locked-ctx'))
-        if not hierarchical and entered != own:
-            # (LockedHierarchicalMachine never enters model contexts on the pinned tree: C06's business)
+        if entered != own:
             out.append(('own-model-context-not-entered-once-in-order', dict(info, model=m.name, entered=entered), 'C10.locked-ctx'))
     del log[:]
-    mach.remove_model(a)
-    call(mach, b.go)
+    # removal — one model, or SEVERAL in one remove_model([...]) call
+    variant = rng.choice(['single', 'list-one', 'list-two', 'list-three'])
+    victims = {'single': [a], 'list-one': [a], 'list-two': [a, b], 'list-three': [a, b, c]}[variant]
+    info = dict(info, removal=variant)
+    try:
+        mach.remove_model(a if variant == 'single' else list(victims))
+    except Exception as e:      # noqa
+        out.append(('remove-model-raised', dict(info, err=repr(e)[:120]), 'C10.locked-ctx'))
+        return out
+    keep = [m for m in (a, b, c) if m not in victims]
+    for m in keep:
+        call(mach, m.go)
     call(mach, mach.add_states, 'Z')
-    if any(n == 'ca' for _k, n in log):
+    gone = [n for m, ns in ((a, ['ca']), (b, ['cb1', 'cb2'])) if m in victims for n in ns]
+    if any(n in gone for _k, n in log):
         out.append(('context-of-removed-model-still-entered', info, 'C10.locked-ctx'))
+    # registered again with another context: the NEW one is entered, the old one is not
+    back = rng.choice(victims)
+    mach.add_model(back, model_context=[Ctx('new', log)])
+    del log[:]
+    k, l = ev(back)
+    entered = [n for kind, n in l if kind == 'enter']
+    if k != 'ok' or entered != ['new']:
+        out.append(('re-registered-model-enters-wrong-contexts', dict(info, model=back.name, outcome=k, entered=entered),
+                    'C10.locked-ctx'))
+    mach.remove_model(back)
+    refs = [(m.name, weakref.ref(m)) for m in victims]
+    del a, b, c, m, victims, keep, back
+    gc.collect()
+    alive = [n for n, r in refs if r() is not None]
+    if alive:
+        out.append(('removed-model-not-collectable', dict(info, models=alive), 'C10.gc'))
     return out
 
 
